@@ -57,11 +57,28 @@ type Scenario struct {
 	// Values2: POLL only - the client's configuration is replaced (SetConfig)
 	// before the first poll trigger; every later pass plays this one.
 	Values2 []VSpec `json:"values2,omitempty"`
+	// Fixed: a fixed-responses configuration instead of value generators: the
+	// listed updates are played verbatim (then the sync marker). SharedCfg:
+	// both engines are built from one configuration object, the way the fake
+	// agent builds a client per Subscribe call from its one configuration.
+	Fixed     []FixedResp `json:"fixed,omitempty"`
+	SharedCfg bool        `json:"shared_cfg,omitempty"`
+}
+
+// FixedResp is one response of a fixed-responses configuration.
+type FixedResp struct {
+	TS  int64 `json:"ts"`
+	Val int64 `json:"val"`
+	Del bool  `json:"del,omitempty"`
 }
 
 type H struct{}
 
 func (H) Name() string { return "fake" }
+
+// RaceProperty: C20 does not state race freedom; race reports are recorded as
+// observations (probe observation:race:...), not as violations.
+func (H) RaceProperty(string) string { return "" }
 
 func (H) Decode(b []byte) (any, error) {
 	s := &Scenario{}
@@ -75,6 +92,16 @@ func (H) Generate(rng *simrt.Rand, prop, tier string) (any, simrt.Config) {
 		Mode: []string{"stream", "stream", "once", "poll"}[rng.Intn(4)], Target: []string{"", "dev"}[rng.Intn(2)]}
 	if sc.Mode == "poll" {
 		sc.Polls = rng.Intn(3)
+	}
+	if rng.Chance(0.2) {
+		// fixed-responses configuration
+		ts := int64(rng.Intn(50))
+		for i := 1 + rng.Intn(6); i > 0; i-- {
+			ts += int64(rng.Intn(5))
+			sc.Fixed = append(sc.Fixed, FixedResp{TS: ts, Val: int64(rng.Intn(100)), Del: rng.Chance(0.15)})
+		}
+		sc.SharedCfg = rng.Chance(0.7)
+		return sc, cfg
 	}
 	unbounded := false
 	for i := 1 + rng.Intn(6); i > 0; i-- {
@@ -208,6 +235,21 @@ func sopts(v VSpec) []string {
 
 func build(sc *Scenario) *fpb.Config {
 	cfg := &fpb.Config{Target: "fake", Seed: sc.Seed, EnableDelay: sc.Delay, DisableSync: sc.DisableSync, DisableEof: sc.DisableEOF}
+	if len(sc.Fixed) > 0 {
+		fg := &fpb.FixedGenerator{}
+		for i, f := range sc.Fixed {
+			n := &gpb.Notification{Timestamp: f.TS}
+			pth := &gpb.Path{Element: []string{"f", fmt.Sprint(i)}}
+			if f.Del {
+				n.Delete = []*gpb.Path{pth}
+			} else {
+				n.Update = []*gpb.Update{{Path: pth, Val: &gpb.TypedValue{Value: &gpb.TypedValue_IntVal{IntVal: f.Val}}}}
+			}
+			fg.Responses = append(fg.Responses, &gpb.SubscribeResponse{Response: &gpb.SubscribeResponse_Update{Update: n}})
+		}
+		cfg.Generator = &fpb.Config_Fixed{Fixed: fg}
+		return cfg
+	}
 	for i, v := range sc.Values {
 		fv := &fpb.Value{Path: []string{"v", fmt.Sprint(i)}, Repeat: v.Repeat, Seed: v.Seed, Timestamp: &fpb.Timestamp{Timestamp: v.TS, DeltaMin: v.DMin, DeltaMax: v.DMax}}
 		switch v.Kind {
@@ -353,9 +395,13 @@ func (H) Execute(x *common.Exec, s any) {
 	defer cancel()
 	gs := simgrpc.NewServer()
 	_ = gs
+	shared := build(sc)
 	for e := 0; e < engines; e++ {
 		e := e
 		cfg := build(sc)
+		if sc.SharedCfg {
+			cfg = shared
+		}
 		cl := fgnmi.NewClient(cfg)
 		// a one-service server whose Subscribe runs this engine
 		srv := simgrpc.NewServer()
@@ -463,6 +509,12 @@ func (H) Execute(x *common.Exec, s any) {
 	if len(sc.Values2) > 0 {
 		x.Fault("configuration-replaced-between-polls")
 	}
+	if len(sc.Fixed) > 0 {
+		x.Fault("fixed-responses-configuration")
+	}
+	if sc.SharedCfg {
+		x.Fault("two-engines-built-from-one-configuration-object")
+	}
 	hh := fnv.New64a()
 	for _, e := range em[0] {
 		fmt.Fprint(hh, e.path, e.ts, e.val, e.sync)
@@ -551,6 +603,13 @@ func second(sc *Scenario) *Scenario {
 // configuration (0 = unbounded).
 func expectedRoundLen(sc *Scenario) int {
 	n := 0
+	if len(sc.Fixed) > 0 {
+		n = len(sc.Fixed)
+		if !sc.DisableSync {
+			n++
+		}
+		return n
+	}
 	for _, v := range sc.Values {
 		if v.Repeat == 0 {
 			return 0
@@ -563,7 +622,52 @@ func expectedRoundLen(sc *Scenario) int {
 	return n
 }
 
+// judgeFixedRound: a fixed-responses configuration is played verbatim, in
+// order, every configured response exactly once, then the sync marker.
+func judgeFixedRound(x *common.Exec, sc *Scenario, es []emitted, show func([]emitted) string) {
+	complete := sc.Cut == 0
+	k := 0
+	for i, e := range es {
+		x.Oblige(1)
+		if e.sync {
+			if sc.DisableSync {
+				x.Violate("C20/unexpected-sync", "sync marker emitted with disable_sync\n%s", show(es))
+				return
+			}
+			if k != len(sc.Fixed) {
+				x.Violate("C20/sync-before-first-emission", "fixed responses: sync marker at #%d after only %d of the %d configured responses\n%s", i, k, len(sc.Fixed), show(es))
+				return
+			}
+			continue
+		}
+		if k >= len(sc.Fixed) {
+			x.Violate("C20/extra-emissions", "fixed responses: message #%d after all %d configured responses were played\n%s", i, len(sc.Fixed), show(es))
+			return
+		}
+		f := sc.Fixed[k]
+		wantVal := ""
+		if !f.Del {
+			wantVal = fmt.Sprint(&gpb.TypedValue{Value: &gpb.TypedValue_IntVal{IntVal: f.Val}})
+		}
+		if e.path != fmt.Sprintf("f/%d", k) || e.ts != f.TS || e.del != f.Del || e.val != wantVal {
+			x.Violate("C20/fixed-response-altered", "fixed responses: message #%d is %s ts=%d %s del=%v, the configuration's response %d is f/%d ts=%d %s del=%v\n%s", i, e.path, e.ts, e.val, e.del, k, k, f.TS, wantVal, f.Del, show(es))
+			return
+		}
+		if sc.Target != "" && e.tgt != sc.Target {
+			x.Violate("C20/target-not-stamped", "message %d carries target %q, the subscription asked for %q", i, e.tgt, sc.Target)
+		}
+		k++
+	}
+	if complete && k != len(sc.Fixed) {
+		x.Violate("C20/missing-emissions", "fixed responses: %d of the %d configured responses were played\n%s", k, len(sc.Fixed), show(es))
+	}
+}
+
 func judgeRound(x *common.Exec, sc *Scenario, es []emitted, show func([]emitted) string) {
+	if len(sc.Fixed) > 0 {
+		judgeFixedRound(x, sc, es, show)
+		return
+	}
 	last := int64(math.MinInt64)
 	count := map[string]int{}
 	first := map[string]int{}
